@@ -49,6 +49,13 @@ def run(m: Model, r: Report, tier: str) -> None:
                 v_ = extra(call, env_, orc)
                 if v_ is not NotImplemented:
                     return v_
+            if isinstance(call.func, ast.Name) and call.func.id in cw.module.functions and not call.keywords:
+                # a private helper of the module (e.g. the line encoding extracted into a function): interpreted as well
+                hf_ = cw.module.functions[call.func.id]
+                hp_ = hf_.params()
+                if len(hp_) == len(call.args):
+                    ret_h, env_h = _mt19.run_function(hf_.node, {p_: _mt19.eval_expr(a_, env_, orc) for p_, a_ in zip(hp_, call.args)}, orc)
+                    return _mt19.eval_expr(ret_h.value, env_h, orc) if ret_h is not None and ret_h.value is not None else None
             return None        # logging, drain, getters: no influence on the bytes
         return orc
     cpar = cw.params()
